@@ -131,14 +131,14 @@ def opentypes_of(cls, qual):
 
 
 OT = {"list": "OtList", "tuple": "OtTuple", "set": "OtSet", "immutable-set": "OtFset", "dict": "OtDict",
-      "unicode": "OtUnicode", "boolean": "OtBool", "none": "OtNone"}
+      "unicode": "OtUnicode", "boolean": "OtBool", "none": "OtNone", "my-reference": "OtMyRef", "their-reference": "OtTheirRef"}
 
 
 def generate():
     out = [P.PRELUDE % dict(src="constraint.py, schema.py, slicers/*.py, remoteinterface.py, call.py, broker.py, banana.py")]
     out.append("Require Import Verif.gen.BananaGen.")
     out.append("Inductive scmp := SGt | SGe | SLt | SLe | SEq | SNe.")
-    out.append("Inductive otype := OtList | OtTuple | OtSet | OtFset | OtDict | OtUnicode | OtBool | OtNone.")
+    out.append("Inductive otype := OtList | OtTuple | OtSet | OtFset | OtDict | OtUnicode | OtBool | OtNone | OtMyRef | OtTheirRef.")
     tokc = P.module_consts(P.load("tokens.py"))
     for n in TOKNAMES:
         need(isinstance(tokc.get(n), bytes) and len(tokc[n]) == 1, "tokens.%s" % n)
@@ -352,8 +352,9 @@ def generate():
             ("Bool", sl["bool"], "BooleanConstraint"), ("None", sl["none"], "Nothing"),
             ("List", sl["list"], "ListConstraint"), ("Tuple", sl["tuple"], "TupleConstraint"),
             ("Dict", sl["dict"], "DictConstraint"), ("Set", sl["set"], "SetConstraint"),
-            ("Choice", P.load("schema.py"), "PolyConstraint"), ("Opt", cm, "Optional")]
-    opener = {"Text", "Bool", "None", "List", "Tuple", "Dict", "Set"}
+            ("Choice", P.load("schema.py"), "PolyConstraint"), ("Opt", cm, "Optional"),
+            ("Remote", P.load("remoteinterface.py"), "RemoteInterfaceConstraint")]
+    opener = {"Text", "Bool", "None", "List", "Tuple", "Dict", "Set", "Remote"}
     for short, mod, name in rows:
         cls, strict = clsinfo(mod, name)
         bases = [U(b) for b in cls.bases]
@@ -562,4 +563,22 @@ def generate():
              "%s overrides checkOpentype" % base)
     out.append("Definition reference_always_passes_checkOpentype : bool := true.  (* `if opentype == ('reference',): return` in "
                "Constraint.checkOpentype, overridden by no constraint class *)")
+    # ---------------------------------------------------------------- RemoteInterfaceConstraint (inbound) / my-reference
+    rco = U(P.find_def(P.load("remoteinterface.py"), "RemoteInterfaceConstraint.checkObject"))
+    for frag in ("if inbound:", "if not ipb.IRemoteReference.providedBy(obj):", "if not self.interface:\n return",
+                 "iface = obj.tracker.interface", "if not iface or iface != self.interface:\n raise Violation"):
+        need(frag in rco, "RemoteInterfaceConstraint.checkObject (inbound) no longer contains: " + frag)
+    out.append("Definition remote_claim_must_equal_declared : bool := true.  (* inbound: `not iface or iface != self.interface` -> Violation *)")
+    mr = P.find_class(P.load("referenceable.py"), "ReferenceUnslicer")
+    need("('my-reference',): referenceable.ReferenceUnslicer" in P.source("broker.py"), "PBOpenRegistry: my-reference")
+    need(not any(isinstance(n, ast.FunctionDef) and n.name == "setConstraint" for n in mr.body),
+         "referenceable.ReferenceUnslicer now has a setConstraint")
+    mrs = U(mr)
+    for frag in ("if typebyte not in (tokens.INT, tokens.NEG):\n raise BananaError", "self.inameConstraint.checkToken(typebyte, size)",
+                 "self.interfaceName = six.ensure_str(obj) or None",
+                 "tracker = self.broker.getTrackerForYourReference(self.clid, self.interfaceName, self.url)"):
+        need(frag in mrs, "referenceable.ReferenceUnslicer no longer contains: " + frag)
+    need("self.interface = getRemoteInterfaceByName(interfaceName)" in U(P.find_class(P.load("referenceable.py"), "RemoteReferenceTracker"))
+         or "getRemoteInterfaceByName(interfaceName)" in U(P.find_class(P.load("referenceable.py"), "RemoteReferenceTracker")),
+         "RemoteReferenceTracker no longer resolves the claimed interface name through the registry")
     return {"SchemaGen.v": "\n\n".join(out) + "\n"}
